@@ -97,6 +97,13 @@ func main() {
 		}
 		b, _ := json.MarshalIndent(dumpVars(p), "", " ")
 		os.Stdout.Write(b)
+	case "gosites": // dev helper: every go statement with caller and callee
+		p, err := loadProgram("linux", "amd64")
+		if err != nil {
+			fmt.Fprintln(os.Stderr, err)
+			os.Exit(2)
+		}
+		cmdGoSites(p)
 	default:
 		usage()
 	}
